@@ -9,6 +9,10 @@ type Type struct {
 	schema   *Schema
 	rootFile *fs.File
 	begin    bytes.Index
+
+	// seq the number of types the table had when the type was added to it: the
+	// types made of one text are numbered in the order they stand in it.
+	seq int
 }
 
 func (s *Type) Schema() *Schema {
